@@ -6,8 +6,9 @@ EXTENDS Init, Json, Randomization
 
 CONSTANTS FirstId, MaxNew, MaxMsgs, ExportLen, Wide
 
-VARIABLE hist
-mcvars == <<vars, hist>>
+VARIABLES hist,    \* the calls made so far (exported for replay)
+          base     \* [next, len] of the initial world (bounds are relative to it)
+mcvars == <<vars, hist, base>>
 
 K1 == <<"key", "k1">>
 K2 == <<"key", "k2">>
@@ -48,6 +49,7 @@ Shapes(self) ==
    <<C2("s1", "sd"), C2("s1", "ok")>>, <<Cr("sd"), Cr("ok")>>,
    <<Ds(X1), Cr("ok")>>, <<Cr("ok"), Ds(Caller)>>, <<Cr("ok"), Ds(Caller), Cr("ok")>>,
    <<C2("s1", "ok"), Rv>>, <<Cr("ok"), Cl(Last, <<C2("s1", "ok")>>), Rv>>,
+   <<C2("s1", "ok"), Cl(Last, <<Cr("ok")>>)>>,
    <<Cl(self, <<Ds(Caller)>>), Cr("ok")>>, <<Cl(self, <<Ds(Caller), Rv>>), C2("s2", "ok")>>}
 
 Progs(s, self) == {<<x>> : x \in Atoms(s)} \cup Shapes(self)
@@ -80,32 +82,53 @@ Calls(s) ==
           ok \in BOOLEAN}
   \cup {Blank @@ [a |-> "Exec4", from |-> <<"builtin", "eam">>, ct |-> "eam", f4 |-> t, init |-> i] :
           t \in F4Targets(s), i \in {"ok", "revert"}}
-  \cup {Blank @@ [a |-> "Exec4", from |-> K1, ct |-> "account", f4 |-> X1, init |-> "ok"]}
-  \cup {Blank @@ [a |-> "Exec4", from |-> <<"builtin", "power">>, ct |-> "power", f4 |-> X1, init |-> "ok"]}
+  \cup {Blank @@ [a |-> "Exec4", from |-> K1, ct |-> "account", f4 |-> X1, init |-> "ok", code |-> cd] :
+          cd \in {"evm", "multisig"}}
+  \cup {Blank @@ [a |-> "Exec4", from |-> <<"builtin", "power">>, ct |-> "power", f4 |-> X1, init |-> "ok",
+                  code |-> cd] : cd \in {"evm", "multisig"}}
   \cup {Blank @@ [a |-> "CreateExternal", from |-> f, init |-> i] :
           f \in Senders(s), i \in {"ok", "revert", "sd", "empty"}}
   \cup UNION {{Blank @@ [a |-> "Invoke", from |-> K1, to |-> t, prog |-> p] : p \in Progs(s, t)} :
               t \in EvmAddrs(s)}
 
-Rec(r) == hist' = Append(hist, r)
+Rec(r) == hist' = Append(hist, r) /\ UNCHANGED base
 \* what the driver needs to replay a call: the call itself (observations are re-made on the real side)
 Plain(c) == [x \in DOMAIN c \ {"ok", "res", "rid", "robust"} |-> c[x]]
 
-CallStep == \E c \in Calls(S) : Step(c) /\ Rec(Plain(c))
+\* (the depth bound is a guard, not only a CONSTRAINT: TLC would otherwise generate -- and then
+\*  discard -- all successors of the states at the bound, which is most of the work)
+CallStep == Len(hist) < base.len + MaxMsgs /\ \E c \in Calls(S) : Step(c) /\ Rec(Plain(c))
 SimStep == \E c \in RandomSubset(12, Calls(S)) : Step(c) /\ Rec(Plain(c))
 
-\* two funded accounts; K1 has already deployed one script contract F (its first message)
+\* two funded accounts; K1 has already deployed one script contract F (its first message).
+\* Further initial worlds are reached from that one by a fixed prefix of calls (exported with
+\* the behaviours, so the driver replays them): a dead deployer with a live grandchild; placeholders
+\* waiting at addresses that later creations will produce.
 A0 == [code |-> "account", addr |-> K1, nonce |-> 0, seq |-> 0, tomb |-> 0, hc |-> FALSE]
 F0 == <<"ext", K1, 0>>
+C0 == <<"c2", F0, "s1", "ok">>
+World0 ==
+  [next |-> FirstId + 3,
+   amap |-> (K1 :> FirstId) @@ (K2 :> (FirstId + 1)) @@ (F0 :> (FirstId + 2)),
+   rob |-> (RobName(FirstId + 2) :> (FirstId + 2)),
+   act |-> (FirstId :> [A0 EXCEPT !.seq = 1]) @@ ((FirstId + 1) :> [A0 EXCEPT !.addr = K2])
+           @@ ((FirstId + 2) :> [code |-> "evm", addr |-> F0, nonce |-> 1, seq |-> 0, tomb |-> 0, hc |-> TRUE])]
+Inv(t, p) == [a |-> "Invoke", from |-> K1, to |-> t, prog |-> p]
+Snd(t) == [a |-> "Send", from |-> K1, to |-> t]
+Prefixes ==
+  {<<>>,
+   <<Inv(F0, <<C2("s1", "ok")>>), Inv(C0, <<Cr("ok"), Ds(Caller)>>)>>,
+   <<Snd(C0), Snd(E1), Snd(<<"ext", K2, 0>>)>>}
+RECURSIVE RunHist(_, _)
+RunHist(s, h) == IF h = <<>> THEN s ELSE RunHist(Do(s, Blank @@ Head(h)).S, Tail(h))
+
 MCInit ==
-  /\ S = [next |-> FirstId + 3,
-          amap |-> (K1 :> FirstId) @@ (K2 :> (FirstId + 1)) @@ (F0 :> (FirstId + 2)),
-          rob |-> (RobName(FirstId + 2) :> (FirstId + 2)),
-          act |-> (FirstId :> [A0 EXCEPT !.seq = 1]) @@ ((FirstId + 1) :> [A0 EXCEPT !.addr = K2])
-                  @@ ((FirstId + 2) :> [code |-> "evm", addr |-> F0, nonce |-> 1, seq |-> 0, tomb |-> 0, hc |-> TRUE])]
-  /\ used = {FirstId, FirstId + 1, FirstId + 2}
+  /\ \E h \in Prefixes :
+       /\ S = RunHist(World0, h)
+       /\ hist = h
+       /\ base = [next |-> RunHist(World0, h).next, len |-> Len(h)]
+  /\ used = Ids(S)
   /\ last = Blank @@ [a |-> "Init", from |-> <<"builtin", "system">>]
-  /\ hist = <<>>
   /\ TLCSet(42, {})
 
 MCNext == CallStep
@@ -128,7 +151,8 @@ ResShape(res) == [k \in 1..Len(res) |-> <<res[k].kind, res[k].init, res[k].ok, r
 Sig(s, c) ==
   CASE c.a = "Send" -> <<"Send", AddrClass(s, c.to)>>
     [] c.a = "Exec" -> <<"Exec", c.ct, c.code, c.ctorOK, c.extra # None, c.ok>>
-    [] c.a = "Exec4" -> <<"Exec4", c.ct, AddrClass(s, c.f4), c.init, c.ok>>
+    [] c.a = "Exec4" -> <<"Exec4", c.ct, AddrClass(s, c.f4), c.init, c.ok,
+                          IF "code" \in DOMAIN c THEN c.code ELSE "evm">>
     [] c.a = "CreateExternal" -> <<"CreateExternal", AddrClass(s, c.from), c.init, ResShape(c.res), c.ok>>
     [] c.a = "Invoke" -> <<"Invoke", AddrClass(s, c.to), ProgShape(s, c.to, c.prog), ResShape(c.res), c.ok>>
 Tour ==
@@ -137,12 +161,9 @@ Tour ==
   ELSE TLCSet(42, TLCGet(42) \cup {sig})
        /\ PrintT(<<"REPLAY", ToJson([sig |-> ToString(sig), calls |-> hist'])>>)
 
-SeqSum(s) == LET RECURSIVE Sum(_)
-                 Sum(I) == IF I = {} THEN 0 ELSE LET i == CHOOSE x \in I : TRUE IN s.act[i].seq + Sum(I \ {i})
-             IN Sum(Ids(s))
 MCSpec == MCInit /\ [][MCNext]_mcvars
 SimSpec == MCInit /\ [][SimNext]_mcvars
-Bound == S.next <= FirstId + 3 + MaxNew /\ SeqSum(S) <= 1 + MaxMsgs
+Bound == S.next <= base.next + MaxNew /\ Len(hist) <= base.len + MaxMsgs
 View == <<S, used>>
 StepOK == [][StepProps]_mcvars
 Export == Len(hist) # ExportLen \/ PrintT(<<"REPLAY", ToJson(hist)>>)
